@@ -43,7 +43,7 @@ var randFuncs = set("Uint32", "Float64", "Uint64", "Int63", "Int31", "Int", "Int
 
 var rules = map[string]*rule{
 	"sync":                       {"verif/shim/vsync", "vsync", set("Mutex", "RWMutex", "Once", "WaitGroup", "Cond", "NewCond")},
-	"sync/atomic":                {"verif/shim/vatomic", "vatomic", set("Uint32", "Int32", "Uint64", "Int64", "Bool", "Pointer", "Value", "AddUint32", "AddInt32", "AddUint64", "AddInt64", "LoadUint32", "LoadInt32", "LoadUint64", "LoadInt64", "StoreUint32", "StoreInt32", "StoreUint64", "StoreInt64", "CompareAndSwapUint32", "CompareAndSwapInt32", "CompareAndSwapUint64", "CompareAndSwapInt64")},
+	"sync/atomic":                {"verif/shim/vatomic", "vatomic", set("Uint32", "Int32", "Uint64", "Int64", "Bool", "Pointer", "Value", "Uintptr", "SwapUint32", "SwapInt32", "SwapUint64", "SwapInt64", "AddUint32", "AddInt32", "AddUint64", "AddInt64", "LoadUint32", "LoadInt32", "LoadUint64", "LoadInt64", "StoreUint32", "StoreInt32", "StoreUint64", "StoreInt64", "CompareAndSwapUint32", "CompareAndSwapInt32", "CompareAndSwapUint64", "CompareAndSwapInt64")},
 	"time":                       {"verif/shim/vtime", "vtime", set("Now", "Since", "Until", "Sleep", "After", "NewTimer", "AfterFunc", "NewTicker", "Tick", "Timer", "Ticker")},
 	"context":                    {"verif/shim/vctx", "vctx", set("Background", "TODO", "WithCancel", "WithCancelCause", "WithDeadline", "WithDeadlineCause", "WithTimeout", "WithTimeoutCause", "Cause", "WithValue", "WithoutCancel", "AfterFunc")},
 	"golang.org/x/sync/errgroup": {"verif/shim/verrgroup", "verrgroup", set("Group", "WithContext")},
@@ -71,6 +71,7 @@ type fileInstr struct {
 	used     map[string]bool   // shim import paths used
 	needSch  bool
 	skipComm map[ast.Node]bool
+	doneSend map[ast.Node]bool // send statements that are already in their final form
 	path     string
 	opt      options
 	changed  bool
@@ -93,7 +94,7 @@ func instrumentFile(path string, src []byte, opt options) ([]byte, bool, error) 
 	if err != nil {
 		return nil, false, err
 	}
-	fi := &fileInstr{fset: fset, f: f, imports: map[string]string{}, used: map[string]bool{}, skipComm: map[ast.Node]bool{}, path: path, opt: opt}
+	fi := &fileInstr{fset: fset, f: f, imports: map[string]string{}, used: map[string]bool{}, skipComm: map[ast.Node]bool{}, doneSend: map[ast.Node]bool{}, path: path, opt: opt}
 	for _, im := range f.Imports {
 		p := strings.Trim(im.Path.Value, `"`)
 		name := filepath.Base(p)
@@ -332,8 +333,13 @@ func (fi *fileInstr) rewriteStmt(s ast.Stmt) ast.Stmt {
 		}
 		return &ast.BlockStmt{Lbrace: pos, List: append(pre, goCall)}
 	case *ast.SendStmt:
+		// ch <- v  =>  { vsched.SendCh(ch) <- v; vsched.SendDone() }   (SendDone parks the sender of an unbuffered channel)
+		if fi.doneSend[x] {
+			return nil
+		}
+		fi.doneSend[x] = true
 		x.Chan = &ast.CallExpr{Fun: fi.vs("SendCh", x.Pos()), Args: []ast.Expr{x.Chan}}
-		return nil
+		return &ast.BlockStmt{Lbrace: x.Pos(), List: []ast.Stmt{x, &ast.ExprStmt{X: &ast.CallExpr{Fun: fi.vs("SendDone", x.Pos())}}}}
 	case *ast.SelectStmt:
 		pos := x.Pos()
 		hasDefault := "false"
@@ -368,31 +374,40 @@ func (fi *fileInstr) rewriteStmt(s ast.Stmt) ast.Stmt {
 				continue
 			}
 			var chExpr ast.Expr
+			var sendDone ast.Stmt
 			switch cm := cc.Comm.(type) {
 			case *ast.ExprStmt:
 				if u, ok := cm.X.(*ast.UnaryExpr); ok && u.Op == token.ARROW {
 					u.X = hoist(u.X)
 					chExpr = u.X
+					u.X = &ast.CallExpr{Fun: fi.vs("RecvNow", u.Pos()), Args: []ast.Expr{chExpr}}
 				}
 			case *ast.AssignStmt:
 				if len(cm.Rhs) == 1 {
 					if u, ok := cm.Rhs[0].(*ast.UnaryExpr); ok && u.Op == token.ARROW {
 						u.X = hoist(u.X)
 						chExpr = u.X
+						u.X = &ast.CallExpr{Fun: fi.vs("RecvNow", u.Pos()), Args: []ast.Expr{chExpr}}
 					}
 				}
 			case *ast.SendStmt:
 				cm.Chan = hoist(cm.Chan)
 				cm.Value = hoist(cm.Value)
 				chExpr = &ast.CallExpr{Fun: fi.vs("SendCase", cm.Pos()), Args: []ast.Expr{cm.Chan}}
-				fi.skipComm[cm] = true
+				cm.Chan = &ast.CallExpr{Fun: fi.vs("SendNowCh", cm.Pos()), Args: []ast.Expr{cm.Chan}}
+				fi.doneSend[cm] = true
+				sendDone = &ast.ExprStmt{X: &ast.CallExpr{Fun: fi.vs("SendNowDone", cm.Pos())}}
 			}
 			if chExpr == nil {
 				fatalf("%s: unsupported select communication at line %d", fi.path, fi.fset.Position(cc.Pos()).Line)
 			}
 			fi.skipComm[cc.Comm] = true
 			chans = append(chans, chExpr)
-			body := append([]ast.Stmt{cc.Comm}, cc.Body...)
+			body := []ast.Stmt{cc.Comm}
+			if sendDone != nil {
+				body = append(body, sendDone)
+			}
+			body = append(body, cc.Body...)
 			// `v := <-ch` with v unused would not compile differently than before; keep as is
 			clauses = append(clauses, &ast.CaseClause{Case: cc.Case, List: []ast.Expr{&ast.BasicLit{Kind: token.INT, Value: fmt.Sprint(idx)}}, Body: body})
 			idx++
@@ -404,10 +419,18 @@ func (fi *fileInstr) rewriteStmt(s ast.Stmt) ast.Stmt {
 		}
 		args := append([]ast.Expr{ast.NewIdent(hasDefault)}, chans...)
 		sw := &ast.SwitchStmt{Switch: pos, Tag: &ast.CallExpr{Fun: fi.vs("Select", pos), Args: args}, Body: &ast.BlockStmt{Lbrace: x.Body.Lbrace, List: clauses, Rbrace: x.Body.Rbrace}}
-		if len(pre) == 0 {
-			return sw
+		if len(pre) > 0 {
+			// the hoisted operands become the switch's init statement (one parallel definition, evaluated left to right): a
+			// label on the select stays a label on the switch, so `break L` keeps its meaning
+			init := &ast.AssignStmt{Tok: token.DEFINE}
+			for _, p := range pre {
+				a := p.(*ast.AssignStmt)
+				init.Lhs = append(init.Lhs, a.Lhs[0])
+				init.Rhs = append(init.Rhs, a.Rhs[0])
+			}
+			sw.Init = init
 		}
-		return &ast.BlockStmt{Lbrace: pos, List: append(pre, sw)}
+		return sw
 	}
 	return nil
 }
